@@ -250,6 +250,19 @@ Theorem marshal_map_writes_the_entries_in_key_order m :
 Proof. exact (conj (sorted_entries_perm m) (sorted_entries_sorted m)). Qed.
 Print Assumptions marshal_map_writes_the_entries_in_key_order.
 
+(* reading back what was written: the members read are the entries, in key order.  Partial: for
+   texts that are well-formed UTF-8 without U+FFFD, U+2028 and U+2029 (those three are written as
+   escapes; they are compared with the implementation by the map-parse stream, not proved) *)
+Theorem map_read_back_partial m :
+  Forall (fun kv => text_plain (fst kv) = true /\ text_plain (snd kv) = true) m ->
+  parse_map (marshal_map m) = Some (sorted_entries m).
+Proof. exact (parse_marshal_map m). Qed.
+Print Assumptions map_read_back_partial.
+Example map_read_back_nonvacuous :
+  Forall (fun kv => text_plain (fst kv) = true /\ text_plain (snd kv) = true)
+    [(bs "b-1"%string, [x3c; xc3; xa9; x22; x0a; x5c]); (bs "a"%string, [])].
+Proof. repeat constructor. Qed.
+
 (* ---- 4. leaf codecs: parse then serialise is the identity ---- *)
 (* cal.Date *)
 Theorem date_read_back d : date_storable d = true -> parse_date (print_date d) = Some d.
